@@ -31,6 +31,23 @@ func Kw(s string) Item    { return kw(s) }
 func Sym(s string) Item   { return sy(s) }
 func Punct(s string) Item { return pu(s) }
 
+func (l *LHS) subSortItems() []Item {
+	if len(l.SubSort) == 0 {
+		return nil
+	}
+	out := []Item{wsPlus, kw("sort"), wsPlus, kw("by"), wsPlus}
+	for i, k := range l.SubSort {
+		if i > 0 {
+			out = append(out, wsStar, pu(","), wsStar)
+		}
+		out = append(out, sy(k.Sym))
+		if k.Dir != "" {
+			out = append(out, wsPlus, kw(k.Dir))
+		}
+	}
+	return out
+}
+
 func (l *LHS) items() []Item {
 	switch l.Fn {
 	case "":
@@ -39,6 +56,7 @@ func (l *LHS) items() []Item {
 		if l.Sub != nil {
 			out := []Item{kw("count"), pu("("), wsStar, kw("from"), wsPlus, sy(l.Sym), wsPlus, kw("where"), wsPlus}
 			out = append(out, l.Sub.Items()...)
+			out = append(out, l.subSortItems()...)
 			return append(out, wsStar, pu(")"))
 		}
 		return []Item{kw("count"), pu("("), wsStar, sy(l.Sym), wsStar, pu(")")}
@@ -123,6 +141,7 @@ func (e *Expr) Items() []Item {
 		if e.L.Sub != nil {
 			out := []Item{kw("isEmpty"), pu("("), wsStar, kw("from"), wsPlus, sy(e.L.Sym), wsPlus, kw("where"), wsPlus}
 			out = append(out, e.L.Sub.Items()...)
+			out = append(out, e.L.subSortItems()...)
 			return append(out, wsStar, pu(")"))
 		}
 		return []Item{kw("isEmpty"), pu("("), wsStar, sy(e.L.Sym), wsStar, pu(")")}
